@@ -42,7 +42,7 @@ RULE = ("Hypothesis-generated split cases (measurement x split size x zero-image
         "of the earliest input are unavailable in some other input, or split with a "
         "size that does not divide N (and < N), or split with an all-zero image at a "
         "part boundary; distinct = sha1 of the canonical JSON spec")
-BUDGET = {"quick": 480, "thorough": 8000}
+BUDGET = {"quick": 960, "thorough": 12000}
 ESSENTIAL = [
     "split", "split:size=1", "split:divisor", "split:nondivisor", "split:size=N",
     "split:size>N", "split:zero-first", "split:zero-last",
@@ -85,9 +85,12 @@ TRACE_POOL = ["fl1_raw", "fl2_median", "fl3_raw"]
 SHAPES = [[6, 8], [5, 7], [8, 6]]
 NAMES = ["m_a", "m_b", "m_c", "m_d", "m_e"]
 #: tolerance for `time` of a joined file: the offsets are differences of
-#: time.mktime() values (~1.6e9 s, ulp 2.4e-7 s); measured max deviation
-#: 4.8e-7 s -> 1e-4 s (200x)
+#: time.mktime() values (~1.6e9 s, ulp 2.4e-7 s, worst case 2 ulp = 4.8e-7 s);
+#: measured max deviation 1.1e-7 s over 150 join cases -> 1e-4 s (900x measured,
+#: 200x worst case; one frame at 3600 Hz is 2.8e-4 s)
 TIME_ATOL = 1e-4
+#: calibration: largest |time - expected| seen in this process
+STATS = {"time_dev": 0.0}
 
 LINE = st.text(alphabet=st.characters(blacklist_categories=("Cs", "Cc")), max_size=30)
 LONG = st.builds(lambda c, k: c * k, st.sampled_from(["x", "ü", "a b"]),
@@ -124,35 +127,48 @@ def st_featset(draw, lo=1, hi=7):
     return fs
 
 
+def split_windows(n, size, keep):
+    """expected event indices of the parts (model of the documented behaviour)"""
+    nparts = -(-n // size)
+    return [np.array([j for j in range(ii * size, min(n, (ii + 1) * size)) if keep[j]],
+                     dtype=int) for ii in range(nparts)]
+
+
+def split_keep(n, zeros, czero0, ini, fin):
+    """events that survive the documented skipping of empty boundary images: the first
+    event of the *measurement* if its image (or contour) is all-zero, the last event of
+    the measurement if its image is all-zero"""
+    keep = np.ones(n, dtype=bool)
+    if ini and ((0 in zeros) or czero0):
+        keep[0] = False
+    if fin and (n - 1 in zeros):
+        keep[n - 1] = False
+    return keep
+
+
 @st.composite
 def st_split(draw):
-    n = draw(st.one_of(st.sampled_from([1, 2, 3, 9, 10, 11, 12, 19, 20, 21]),
-                       st.integers(1, 36)))
+    kind = draw(st.sampled_from(["one", "div", "div", "nondiv", "nondiv", "nondiv", "N",
+                                 ">N", "rem1"]))
+    if kind == "div":
+        size = draw(st.integers(2, 10))
+        n = size * draw(st.integers(2, 4))
+    elif kind in ("nondiv", "rem1"):
+        size = draw(st.integers(2, 11))
+        rem = 1 if kind == "rem1" else draw(st.integers(1, size - 1))
+        n = size * draw(st.integers(1, 3)) + rem
+    else:
+        n = draw(st.one_of(st.sampled_from([1, 2, 3, 9, 10, 11, 12, 19, 20, 21]),
+                           st.integers(1, 36)))
+        size = {"one": 1, "N": n}.get(kind) or n + draw(st.integers(1, 5))
     fs = draw(st_featset(0, 4))
     for f, p in (("image", 7), ("mask", 2), ("contour", 3), ("trace", 2)):
         fs.discard(f)
         if draw(st.integers(0, 9)) < p:
             fs.add(f)
-    kind = draw(st.sampled_from(["one", "div", "nondiv", "nondiv", "nondiv", "N", ">N",
-                                 "rem1"]))
-    if kind == "one":
-        size = 1
-    elif kind == "div":
-        divs = [k for k in range(2, n) if n % k == 0]
-        size = draw(st.sampled_from(divs)) if divs else n
-    elif kind == "nondiv":
-        nd = [k for k in range(2, n) if n % k]
-        size = draw(st.sampled_from(nd)) if nd else max(1, n - 1)
-    elif kind == "rem1":
-        r1 = [k for k in range(2, n) if n % k == 1]
-        size = draw(st.sampled_from(r1)) if r1 else max(1, n - 1)
-    elif kind == "N":
-        size = n
-    else:
-        size = n + draw(st.integers(1, 5))
     # positions of all-zero images
-    zk = draw(st.lists(st.sampled_from(["first", "last", "pb-first", "pb-last", "rnd"]),
-                       max_size=4))
+    zk = draw(st.lists(st.sampled_from(["first", "last", "pb-first", "pb-last",
+                                        "pb-first", "pb-last", "rnd"]), max_size=4))
     zeros = set()
     nparts = -(-n // size)
     for k in zk:
@@ -166,13 +182,22 @@ def st_split(draw):
             zeros.add(min(n - 1, size * draw(st.integers(1, nparts)) - 1))
         else:
             zeros.add(draw(st.integers(0, n - 1)))
-    rt = draw(st.sampled_from(["none", "inorder", "inorder", "reversed"]))
+    if "image" not in fs:
+        zeros = set()
+    czero0 = "contour" in fs and draw(st.integers(0, 9)) == 0
+    ini = draw(st.integers(0, 9)) < 8
+    fin = draw(st.integers(0, 9)) < 8
+    keep = split_keep(n, zeros, czero0, ini, fin)
+    if any(len(w) == 0 for w in split_windows(n, size, keep)) \
+            and draw(st.integers(0, 9)) < 8:
+        # a part without events (known finding): keep this class small
+        zeros -= {0, n - 1}
+        czero0 = False
+    rt = draw(st.sampled_from(["none", "inorder", "inorder", "reversed", "reversed"]))
     return {
         "mode": "split", "chunk": draw(st.sampled_from([None, 100, 100])),
         "n": n, "feats": sorted(fs), "size": size, "zeros": sorted(zeros),
-        "czero0": draw(st.integers(0, 9)) == 0,
-        "skip_initial": draw(st.integers(0, 9)) < 8,
-        "skip_final": draw(st.integers(0, 9)) < 8,
+        "czero0": czero0, "skip_initial": ini, "skip_final": fin,
         "rt": rt, "stem": draw(st.sampled_from(["meas", "M_2021", "a.b"])),
         "shape": draw(st.sampled_from(SHAPES)),
         "traces": draw(st.lists(st.sampled_from(TRACE_POOL), min_size=1, max_size=2,
@@ -198,8 +223,9 @@ def _fmt_time(sec_of_day, frac_digits, frac_num):
 def st_join(draw):
     k = draw(st.sampled_from([2, 2, 3, 3, 3, 4, 5]))
     base = draw(st_featset(1, 6))
-    tfmt = draw(st.sampled_from(["int", "int", "int", "uniform", "uniform", "uniform",
+    tfmt = draw(st.sampled_from(["int", "int", "uniform", "uniform", "uniform", "mixed",
                                  "mixed"]))
+    ptie = draw(st.sampled_from([0, 0, 2, 5, 9]))
     udig = draw(st.integers(1, 4))
     anchor = draw(st.sampled_from(["noon", "noon", "minute", "midnight"]))
     miss_kind = draw(st.sampled_from(["none", "none", "one", "spread", "spread", "any",
@@ -231,6 +257,9 @@ def st_join(draw):
                      draw(st.integers(0, 10**dig - 1))]))
             else:
                 num = 0
+        if inputs and draw(st.integers(0, 9)) < ptie:
+            prev = inputs[draw(st.integers(0, len(inputs) - 1))]
+            day, sod, dig, num = prev["day"], prev["sod"], prev["dig"], prev["num"]
         # --- features
         drops, extras = set(), set()
         if miss_kind == "one":
@@ -429,15 +458,10 @@ def _run_split(spec, rec, d):
     for f in sorted(feats & set(F_NONSC)):
         rec.cls(f"split:{f}")
     # ---- model: which events may be dropped (documented boundary skipping)
-    keep = np.ones(n, dtype=bool)
     ini, fin = spec["skip_initial"], spec["skip_final"]
-    if ini and ((0 in zeros) or czero0):
-        keep[0] = False
-    if fin and (n - 1 in zeros):
-        keep[n - 1] = False
+    keep = split_keep(n, zeros, czero0, ini, fin)
     nparts = -(-n // size)
-    exp_idx = [np.array([j for j in range(ii * size, min(n, (ii + 1) * size)) if keep[j]],
-                        dtype=int) for ii in range(nparts)]
+    exp_idx = split_windows(n, size, keep)
     emptied = any(len(ix) == 0 for ix in exp_idx)
     # ---- classes
     if size == 1:
@@ -779,8 +803,12 @@ def _check_join(spec, rec, dj, info, ref, e1, e2, ordtag):
                 continue
             exp = np.concatenate([
                 s + float(info[i]["T"] - first["T"]) for s, i in zip(segs, order)])
-            dev = np.abs(got - exp)
-            ok = got.shape == exp.shape and bool(np.all(dev <= TIME_ATOL))
+            ok = got.shape == exp.shape
+            if ok:
+                dev = np.abs(got - exp)
+                if dev.size:
+                    STATS["time_dev"] = max(STATS["time_dev"], float(np.max(dev)))
+                ok = bool(np.all(dev <= TIME_ATOL))
             rec.check(ok, "join/time-offset",
                       lambda: f"time {got.tolist()} != inputs + acquisition offsets "
                               f"{[float(info[i]['T'] - first['T']) for i in order]} = "
